@@ -32,7 +32,7 @@
      C13_first_call_allowed     (table) the bound is positive: calls from depth 0 pass the guard *)
 From PV Require Import Model.Exec Model.Api Spec.SpecFlow.
 From PV Require Import gen.Tables.
-From PV Require Import Tie.C13.
+From PV Require Import gen.Scalar Tie.C13.
 Open Scope N_scope.
 
 (* ------------------------------------------------------------------ the call *)
@@ -271,3 +271,11 @@ Example C13_run_runaway :
   api_render_string c13_world 
     [123;37;32;109;97;99;114;111;32;109;40;41;32;37;125;123;123;32;109;40;41;32;125;125;123;37;32;101;110;100;109;97;99;114;111;32;37;125;123;123;32;109;40;41;32;125;125] [] = OExecErr 3 [].
 Proof. vm_cast_no_check (eq_refl (OExecErr 3 [])). Qed.
+
+(* ---- the depth guard is the code's ----
+   [go_macro_refuses] (gen/Scalar.v) is callGuarded's increment-and-compare, translated from /repo
+   on every run; the model refuses a call exactly when (max_macro_depth <? depth + 1). *)
+Theorem C13_depth_guard_is_the_code : forall d : Z,
+  (- two63 <= d < two63 - 1)%Z -> go_macro_refuses d = (max_macro_depth <? d + 1)%Z.
+Proof. exact e2_macro_guard. Qed.
+Print Assumptions C13_depth_guard_is_the_code.
